@@ -159,6 +159,21 @@ def formulas(facts, rep):
             n += 1
             rep.add("R05b", ob.sname, "fragment count = div_ceil(payload size, fragment size)", good,
                     "div_ceil(%s, %s)" % (fc2.show(a)[:80], fc2.show(c)[:80]), ob.loc(t.line))
+    # no sibling computes a fragment count with a floor division (len / size [+ 1] is wrong for exact multiples or remainders)
+    for ob in facts.bodies.values():
+        if not ob.is_fn_like() or "rtps/" not in (ob.file or "") or "::tests::" in ob.sname or ob.item_name == "total_fragments_expected":
+            continue
+        if not ob.sum_calls or not any(x.endswith("::len") for x in ob.sum_calls):
+            continue
+        fc2 = FnCtx(ob)
+        for bb, i, s in fc2.mir.stmts():
+            if s.kind == "assign" and s.rv is not None and s.rv.kind == "binop" and s.rv.op == "Div":
+                e = fc2.rv_expr(s)
+                a, c = e[2], e[3]
+                if E.mentions_call(a, "len") and (E.mentions_field(c, "data_max_size_serialized") or E.mentions_local_named(fc2.mir, c, "data_max_size_serialized")):
+                    rep.add("R05b", ob.sname, "no floor division of the payload size by the fragment size", False,
+                            "%s: the sibling sites and the reader use ceil(len / size); a floor division (with or without + 1) miscounts the fragments of payloads that are / are not an exact multiple" % fc2.show(e)[:120],
+                            ob.loc(s.line))
     return n
 
 
@@ -251,10 +266,43 @@ def reassembly_order(facts, rep):
     return n
 
 
+def reassembly_same_sample(facts, rep):
+    """R05f: every selection from the fragment buffer inside reconstruct_data_from_frag is restricted to the sample being
+    rebuilt (closure compares writer_sn() with the requested sequence number): completeness count, per-fragment lookup and
+    header lookup are siblings and must agree."""
+    b = facts.fn("RtpsWriterProxy", "reconstruct_data_from_frag")
+    n = 0
+    for c in facts.descendants(b):
+        if not c.kind.startswith("Closure"):
+            continue
+        cf = FnCtx(c)
+        # closures over a DataFragSubmessage element: they call accessor methods of it
+        if not c.calls_any("DataFragSubmessage::writer_sn", "DataFragSubmessage::fragment_starting_num", "DataFragSubmessage::fragments_in_submessage"):
+            continue
+        if c.calls_any("DataFragSubmessage::fragments_in_submessage") and not c.calls_any("DataFragSubmessage::writer_sn") and not c.calls_any("DataFragSubmessage::fragment_starting_num"):
+            continue   # the fold that sums the counts of an already filtered iterator
+        # only predicates (closures returning bool)
+        if cf.mir.locals[0] != "bool":
+            continue
+        n += 1
+        ok = False
+        for bb, i, s in cf.mir.stmts():
+            if s.kind == "assign" and s.rv is not None and s.rv.kind == "binop" and s.rv.op in ("Eq", "Ne"):
+                e = cf.rv_expr(s)
+                if E.mentions_call(e[2], "DataFragSubmessage::writer_sn") or E.mentions_call(e[3], "DataFragSubmessage::writer_sn"):
+                    ok = True
+        rep.add("R05f", c.sname, "fragment selection is restricted to the sample being rebuilt (writer_sn == seq_num)", ok,
+                "this predicate over the fragment buffer does not compare writer_sn(): fragments of another sample with the same fragment number can be spliced into the payload",
+                c.loc())
+    return n
+
+
 def run(ctx, rep):
     fx = ctx.facts
     n5 = reassembly_order(fx, rep)
     rep.floor("R05e", n5, 1, "payload appends in reconstruct_data_from_frag")
+    n6 = reassembly_same_sample(fx, rep)
+    rep.floor("R05f", n6, 4, "fragment-buffer predicates in reconstruct_data_from_frag")
     want, pidx, b = callee_convention(fx)
     rep.add("R05a", b.sname, "as_data_frag_submessage derives fragment_starting_num from its index parameter", want in ("B0", "B1"),
             "cannot read the callee's convention (fragment_starting_num is not param / param+1)", b.loc())
